@@ -625,9 +625,12 @@ Print Assumptions C04_rewrite_sections_all.
    C04_written_lines_within_limit, C04_event_rows_within_limit, C04_event_row_length   the bound on doc_lines d block by block;
                                     an event row has at most 10 + the cell lengths + one comma per cell bytes;
    C04_refused_beyond_limit         the refusal without representability;
-   C04_line_bound_sharp, C04_needs_line_bound   one event with n letters of text (row = 52 + n bytes), buffer of 128 bytes: 75
-                                    letters are read back, 76 refused, under every schedule (75 fail once the lines end in CR LF);
-   C04_real_line_bound              the real constant: a row of 65536 bytes is refused under every schedule.
+   C04_line_bound_sharp             one event with n letters of text (row = 52 + n bytes; representable for every n > 0): read
+                                    back iff 52 + n + 1 <= max, for every max >= 81 and every schedule;
+   C04_needs_line_bound             the same by computation on a buffer of 128 bytes, with the error returned (EIO); 75 letters
+                                    pass with LF and fail once the lines end in CR LF;
+   C04_real_line_bound              the real constant: a row of 65535 bytes is read back, one of 65536 bytes refused, under
+                                    every schedule, while the document with the 65536-byte row satisfies doc_repr.
    Replayed on the library by the harness suite ssa.linebound (rows of 65533 .. 65537 bytes). *)
 From Astisub Require Import Kit.ScanLim Proofs.ScanLimProofs Proofs.LineBound Proofs.LineBoundSsa.
 
@@ -721,20 +724,24 @@ Theorem C04_refused_beyond_limit : forall (max : nat) d, styles_repr (ad_styles 
 Proof. exact write_ssa_beyond. Qed.
 Print Assumptions C04_refused_beyond_limit.
 
-(* the bound is needed and sharp: a_adoc n = no script info, no styles, one event with one line of n letters a *)
-Theorem C04_line_bound_sharp :
-  doc_repr (a_adoc 75) /\ doc_repr (a_adoc 76) /\
-  (exists data, write_ssa (a_adoc 75) (style_keys (a_adoc 75)) = Ok data /\
-     forall counts, read_ssa_lim 128 data counts = Ok (canon_doc (a_adoc 75))) /\
-  (exists data, write_ssa (a_adoc 76) (style_keys (a_adoc 76)) = Ok data /\ read_ssa data = Ok (canon_doc (a_adoc 76)) /\
-     forall counts, exists k, read_ssa_lim 128 data counts = Err k).
-Proof. exact (conj (proj1 (proj2 a_adoc_repr_128)) (conj (proj2 (proj2 a_adoc_repr_128)) ssa_line_bound_sharp_128)). Qed.
+(* the bound is needed and sharp: a_adoc n = no script info, no styles, one event with one line of n letters a; the row has
+   52 + n bytes, the Format line 80; representable for every n > 0, read back iff 52 + n + 1 <= max, for every buffer size
+   above the Format line and every schedule *)
+Theorem C04_line_bound_sharp : forall (max : nat) (n : N), (81 <= max)%nat -> (0 < n)%N ->
+  doc_repr (a_adoc n) /\
+  exists data, write_ssa (a_adoc n) (style_keys (a_adoc n)) = Ok data /\ read_ssa data = Ok (canon_doc (a_adoc n)) /\
+    ((52 + N.to_nat n + 1 <= max)%nat -> forall counts, read_ssa_lim max data counts = Ok (canon_doc (a_adoc n))) /\
+    ((max < 52 + N.to_nat n + 1)%nat -> forall counts, exists k, read_ssa_lim max data counts = Err k).
+Proof. exact ssa_line_bound_sharp. Qed.
 Print Assumptions C04_line_bound_sharp.
 
 Theorem C04_real_line_bound :
-  exists data, write_ssa (a_adoc 65484) (style_keys (a_adoc 65484)) = Ok data /\
-    forall counts, exists k, read_ssa_lim max_scan_token data counts = Err k.
-Proof. exact ssa_real_line_bound. Qed.
+  doc_repr (a_adoc 65484) /\
+  (exists data, write_ssa (a_adoc 65483) (style_keys (a_adoc 65483)) = Ok data /\
+     forall counts, read_ssa_lim max_scan_token data counts = Ok (canon_doc (a_adoc 65483))) /\
+  (exists data, write_ssa (a_adoc 65484) (style_keys (a_adoc 65484)) = Ok data /\ read_ssa data = Ok (canon_doc (a_adoc 65484)) /\
+     forall counts, exists k, read_ssa_lim max_scan_token data counts = Err k).
+Proof. exact ssa_real_line_bound_full. Qed.
 Print Assumptions C04_real_line_bound.
 
 Example C04_needs_line_bound :
